@@ -133,6 +133,8 @@ impl<'a> Editor<'a> {
         // candidate edits fully inside [lo,hi]
         let mut cand: Vec<usize> = (0..self.edits.len())
             .filter(|&i| Some(i) != exclude && self.edits[i].start >= lo && self.edits[i].end <= hi)
+            // inside a Sub piece, zero-width insertions sitting exactly on its boundary belong to the outer level
+            .filter(|&i| exclude.is_none() || self.edits[i].start != self.edits[i].end || (lo < self.edits[i].start && self.edits[i].start < hi))
             .collect();
         // a replace edit that spans exactly [lo,hi) and is the excluded one has been removed already.
         // outermost: not strictly inside another candidate replace edit
@@ -397,6 +399,28 @@ impl<'a, 'e> Rewriter<'a, 'e> {
             self.fire("R7");
             // nested rules inside the arguments
             for e in &args {
+                self.visit_expr(e);
+            }
+            return;
+        }
+        if name == "write" || name == "writeln" {
+            // R7b: write!(f, fmt, args..) -> shim_fmt_write(f, (&(arg),..)); arguments still evaluated, result kept
+            let args = args.unwrap_or_else(|| fail(format!("{}:{}: cannot parse arguments of {}!", self.src.rel, self.src.line_of(a), name)));
+            let mut pieces = vec![Self::lit("shim_fmt_write("), self.sub(args[0].span()), Self::lit(", (")];
+            for e in args.iter().skip(1) {
+                if let syn::Expr::Lit(_) = e {
+                    continue;
+                }
+                let e = if let syn::Expr::Assign(asg) = e { &*asg.right } else { e };
+                pieces.push(Self::lit("&("));
+                pieces.push(self.sub(e.span()));
+                pieces.push(Self::lit("), "));
+            }
+            pieces.push(Self::lit("))"));
+            pieces.push(Self::lit(semi));
+            self.ed.replace(a, b, pieces, "R7");
+            self.fire("R7");
+            for e in args.iter().skip(1) {
                 self.visit_expr(e);
             }
             return;
@@ -931,6 +955,30 @@ fn process_template(ctx: &mut Ctx, path: &Path, assume: bool, depth: usize) {
                 "item" => {
                     let o = Opts::parse(&words[3..]);
                     process_item(ctx, words[1], words[2], &o, &tfile, i + 1);
+                }
+                "enum_rank" => {
+                    // spec fn giving the declaration index of each variant (what derived PartialOrd compares)
+                    let (file, en, fname) = (words[1], words[2], words[3]);
+                    ctx.src(file);
+                    let src = &ctx.srcs[file];
+                    let mut vs: Option<Vec<String>> = None;
+                    for it in &src.ast.items {
+                        if let syn::Item::Enum(e) = it {
+                            if e.ident == en {
+                                if e.variants.iter().any(|v| !matches!(v.fields, syn::Fields::Unit) || v.discriminant.is_some()) {
+                                    fail(format!("{}:{}: enum {} is not field-less/implicit", tfile, i + 1, en));
+                                }
+                                vs = Some(e.variants.iter().map(|v| v.ident.to_string()).collect());
+                            }
+                        }
+                    }
+                    let vs = vs.unwrap_or_else(|| fail(format!("{}:{}: enum {} not found in {}", tfile, i + 1, en, file)));
+                    let mut t = format!("// >>> generated from the declaration order of enum {} in /repo/{}\npub open spec fn {}(t: {}) -> int {{\n    match t {{\n", en, file, fname, en);
+                    for (k, v) in vs.iter().enumerate() {
+                        t.push_str(&format!("        {}::{} => {},\n", en, v, k));
+                    }
+                    t.push_str("    }\n}\n");
+                    ctx.emit(&t);
                 }
                 "proofonly" => {
                     if assume {
